@@ -58,4 +58,20 @@ def _gen_main(rng, tier):
 
 def gen(rng, tier):
     yield from _gen_main(rng, tier)
+    yield from _grid(rng, tier)
     yield from _prim.arith(rng, tier)
+
+
+def _grid(rng, tier):
+    """systematic edge-digit grid: every pair of values with digits in {0,1,B/2-1,B/2,B-1} on small multi-digit types"""
+    lim = 20000 if tier == "thorough" else 700
+    for cfg in GRID_CFGS:
+        for s, ops in (("u", ["overflowing_add", "overflowing_sub", "overflowing_add_signed", "abs_diff", "saturating_add_signed"]),
+                       ("i", ["overflowing_add", "overflowing_sub", "overflowing_add_unsigned", "overflowing_sub_unsigned", "abs_diff", "saturating_sub"])):
+            for op in ops:
+                for a, b in grid_pairs(rng, cfg, lim):
+                    yield f"{op} {s}{cfg} {hx(a)} {hx(b)}", "edge-grid"
+            for a, b in grid_pairs(rng, cfg, lim):
+                yield f"carrying_add {s}{cfg} {hx(a)} {hx(b)} 1", "edge-grid"
+                yield f"borrowing_sub {s}{cfg} {hx(a)} {hx(b)} 1", "edge-grid"
+                yield f"midpoint {s}{cfg} dbg {hx(a)} {hx(b)}", "edge-grid"
